@@ -325,6 +325,12 @@ def _mirsym():
         bounds="n in {0,2} (quick) / {0..3} (thorough) rows, all values symbolic; add, sub (quick) + mul (thorough)", spec=so2.CheckedLoopSpec(), stubs=["Scratchpad accessors -> obligation-owned buffers"])
     add("C06.d/type_conversion", "C06", "mirsym", Q, "TypeConversionOperator<T,U>::execute for the widening conversions inserted before arithmetic: value preserved, one output per row",
         ["<TypeConversionOperator<T,U> as VecOperator>::execute", "type_conversion::Cast::cast"], bounds="n in {0,2} (quick) / {0,1,3}; (u8|u16|u32)->i64 quick, + u8->u32, u16->u32, u8->u16 thorough", spec=so2.TypeConversionSpec(), stubs=["Scratchpad accessors -> obligation-owned buffers"])
+    add("C04.f/exists", "C04", "mirsym", Q, "Exists<T>::execute: exists[g] set exactly for the group keys that occur; array sized max_index + 1",
+        ["<Exists<T> as VecOperator>::execute"], bounds="<= 3 (quick) / 4 keys, max_index <= 3, keys symbolic within 0..=max_index", spec=so2.ExistsSpec(), stubs=["Scratchpad accessors -> obligation-owned buffers"])
+    add("C04.f/compact", "C04", "mirsym", Q, "Compact<i64,u8>, NonzeroCompact<u32>, NonzeroCompactNullable<i64>::execute: accumulator slots of non-existing groups are removed in place, survivors keep order and values",
+        ["<Compact<T,U> as VecOperator>::execute", "<NonzeroCompact<T>>::execute", "<NonzeroCompactNullable<T>>::execute"], bounds="n in {0,1,3} (quick) / {0..4,9} slots, values/selectors/bitmap symbolic", spec=so2.CompactSpec(), stubs=["Scratchpad accessors -> obligation-owned buffers"])
+    add("C04.f/nonzero_indices", "C04", "mirsym", Q, "NonzeroIndices<u8,i64>, NonzeroNonnullIndices<u32,i64>::execute: ascending offset-shifted positions of existing groups; running offset advances by the input length",
+        ["<NonzeroIndices<T,U> as VecOperator>::execute", "<NonzeroNonnullIndices<T,U>>::execute"], bounds="(n, offset) in {(0,0),(3,0),(2,5)} quick + {(1,0),(4,1),(9,0)} thorough", spec=so2.NonzeroIndicesSpec(), stubs=["Scratchpad accessors -> obligation-owned buffers"])
     from .specs import xorfloat as sx
     add("C16.b/xor_float", "C16", "mirsym", Q,
         "xor_float::double::encode then decode: every f64 comes back bit-exact (mantissa None) or with sign, exponent and the requested leading mantissa bits (mantissa Some(m)); covers the first-window and the window-reuse branch",
